@@ -65,11 +65,16 @@ META = {
         "appended or handed on whole; a loop over readline() ends on the eof flag, never on an empty line (readline returns '' "
         "for a blank line too); decompress(data, max_length) requires unconsumed_tail to be read again; a cached search offset "
         "(buffer.find(sep, START)) is 0 again before the next search/return once the front of the buffer was cut or the buffer "
-        "emptied, and is advanced to len(buffer) only after a failed search and before anything is appended. "
+        "emptied, and is advanced to len(buffer) only after a failed search and before anything is appended; a decision on the "
+        "content of the read buffer (startswith / slice, index or length comparison, in the reader or in load/_load_v*) is taken "
+        "only at eof or after a loop that reads until enough bytes or eof - the find-a-separator-else-read-more protocol and "
+        "emptiness tests are exempt. "
         "R5: header constants and their dispatch, [11:] offsets of project name/version (through helpers), how a v1 line becomes "
         "three fields (canonical form of rstrip/strip + split(sep, maxsplit) + optional [:n]: Sphinx keeps the rest of the line "
         "as the location; field-count and blank-line skips before the unpacking are accepted), the v1 "
-        "type/location templates and duplicate semantics (symbolic evaluation of both v1 loop bodies; a first-wins guard in v1 "
+        "type/location templates and duplicate semantics (symbolic evaluation of both v1 loop bodies on the common refinement "
+        "of their path conditions, with conditional expressions, `in (..)` tests and literal lookup tables lowered to branches, "
+        "so a branch taken on a translated instead of the raw type field is seen; a first-wins guard in v1 "
         "is reported), the substring/separator, type-equality and location-suffix constants of the v2 loader, the entry-line "
         "boundary set (str.splitlines) for v1 and v2, and the '-' sentinel of to_sphinx / from_sphinx / Sphinx's v1 loader "
         "(from_sphinx must map exactly '' and '-' to None: lossless round trip)."
@@ -2609,6 +2614,57 @@ def _judge_line_loops(rep: Report, M: "ReaderModel", funcs: list[FunctionInfo]) 
     return n
 
 
+def _judge_content_tests(rep: Report, M: "ReaderModel", funcs: list[FunctionInfo]) -> int:
+    """A decision taken on what the read buffer happens to contain (startswith / slice or index comparison /
+    length comparison) is only independent of the read schedule at end of stream, or after a loop that read until
+    enough bytes or eof. The reader's own protocol (``find`` a separator, else read more) and emptiness tests
+    are not content decisions."""
+    rid = "C18.R4"
+    battr, eattr = M.B.split(".", 1)[1], M.E.split(".", 1)[1]
+    n = 0
+
+    def is_buf(e) -> bool:
+        return isinstance(e, ast.Attribute) and e.attr == battr and isinstance(e.value, ast.Name)
+
+    def mentions_eof(t) -> bool:
+        return any(isinstance(x, ast.Attribute) and x.attr == eattr for x in ast.walk(t))
+
+    for fi in funcs:
+        cfg = get_cfg(fi)
+        for st in [x for x in cfg.nodes if isinstance(x, (ast.If, ast.While, ast.Assert))]:
+            test = st.test
+            probes = []
+            for x in ast.walk(test):
+                if isinstance(x, ast.Call) and isinstance(x.func, ast.Attribute) and is_buf(x.func.value) and x.func.attr in ("startswith", "endswith", "count", "index", "rfind", "rindex"):
+                    probes.append(x)
+                elif isinstance(x, ast.Compare):
+                    sides = [x.left] + list(x.comparators)
+                    for s_ in sides:
+                        if isinstance(s_, ast.Subscript) and is_buf(s_.value):
+                            probes.append(x)  # buffer[:n] == ..., buffer[0] == ...
+                        elif isinstance(s_, ast.Call) and dotted(s_.func) == "len" and s_.args and is_buf(s_.args[0]) and not any(_const(o) == 0 for o in sides if o is not s_):
+                            probes.append(x)  # len(buffer) < n
+                        elif is_buf(s_) and not any(_empty_bytes(o) for o in sides if o is not s_) and not isinstance(x.ops[0], (ast.Is, ast.IsNot)):
+                            probes.append(x)  # buffer == b"..."
+            if not probes:
+                continue
+            if isinstance(st, ast.While) and mentions_eof(test):
+                continue  # "read until enough bytes or eof" loop: the test itself is the protocol
+            n += 1
+            p = probes[0]
+            k = f"{fi.fq}|decision on the buffer content|{short(p, 60)}"
+            dom = cfg.dom().get(st, set())
+            settled = any(pol and mentions_eof(t) and not isinstance(t, ast.BoolOp) for t, pol in cfg.guards(st))
+            for d in dom:
+                if isinstance(d, tuple) and d[0] == "F" and isinstance(d[1], ast.While) and mentions_eof(d[1].test) and any(is_buf(y) for y in ast.walk(d[1].test)):
+                    settled = True  # left a loop that read until the buffer was long enough or the stream ended
+            if settled:
+                rep.ok(rid, k, fi.module.site(p), "at end of stream / after reading until enough bytes are buffered")
+            else:
+                rep.violation(rid, k, fi.module.site(p), f"`{short(p, 60)}` decides on the bytes that happen to be in the read buffer, which holds whatever the reads delivered so far (a read may return a single byte): the same stream is accepted or rejected depending on how it is split into reads. Decide on a complete line (readline()) or read until enough bytes or eof first")
+    return n
+
+
 def _judge_decompress(rep: Report, M: "ReaderModel") -> int:
     """``d.decompress(data, max_length)`` leaves unprocessed input in ``d.unconsumed_tail``; it must be fed back."""
     rid = "C18.R4"
@@ -2635,7 +2691,7 @@ def _judge_decompress(rep: Report, M: "ReaderModel") -> int:
 @rule("C18.R4")
 def r4_buffer_conservation(corpus: Corpus, rep: Report, tier: str):
     corpus = _view(corpus)
-    rep.rule("C18.R4", "reader buffers: stores are append / consumed-prefix drop / consumed reset; consumed bytes discarded once; no tail left at exit; decode() only at entry/stream boundaries; line loops end on the eof flag; bounded decompress keeps its tail; cached search offsets reset when the buffer is cut; eof only on b''; every chunk appended or handed on")
+    rep.rule("C18.R4", "reader buffers: stores are append / consumed-prefix drop / consumed reset; consumed bytes discarded once; no tail left at exit; decode() only at entry/stream boundaries; line loops end on the eof flag; bounded decompress keeps its tail; cached search offsets reset when the buffer is cut; content decisions only at eof / after reading enough; eof only on b''; every chunk appended or handed on")
     M = _reader(corpus)
     rid = "C18.R4"
     for m in M.methods:
@@ -2651,6 +2707,7 @@ def r4_buffer_conservation(corpus: Corpus, rep: Report, tier: str):
     if _judge_line_loops(rep, M, M.methods + [A.load, A.v1, A.v2]) < 1:
         raise Unsupported(f"{M.ci.fq}: no loop over readline() found")
     _judge_decompress(rep, M)
+    _judge_content_tests(rep, M, M.methods + [A.load, A.v1, A.v2])
     # reads and the eof flag
     n_reads = 0
     for m in M.methods:
@@ -2806,10 +2863,58 @@ def _sym_store(st, env, mod, sentinel, A):
     return _sym_norm(_sym_eval(typ_e, env, mod)), _sym_norm(_sym_eval(name_e, env, mod)), _sym_norm(_sym_eval(loc_e, env, mod)), text, _sphinx_store_mode(A, st)
 
 
+def _subst_node(node, old, new):
+    """Copy of ``node`` with the sub-node ``old`` (by identity) replaced by ``new``; other nodes are shared."""
+    if node is old:
+        return new
+    if not isinstance(node, ast.AST) or not any(x is old for x in ast.walk(node)):
+        return node
+    out = type(node)()
+    for f in node._fields:
+        v = getattr(node, f, None)
+        setattr(out, f, [_subst_node(x, old, new) for x in v] if isinstance(v, list) else _subst_node(v, old, new))
+    for a in ("lineno", "col_offset", "end_lineno", "end_col_offset", "_mod"):
+        if hasattr(node, a):
+            setattr(out, a, getattr(node, a))
+    return out
+
+
+def _lower_v1_stmt(st):
+    """Rewrite value-level branching of a v1 loop statement into statement-level branching:
+    ``x = A if T else B`` -> ``if T: x = A else: x = B``; ``x = TABLE.get(k, d)`` with a literal module table
+    -> ``if k == key1: x = v1 ... else: x = d``."""
+    if not isinstance(st, (ast.Assign, ast.AugAssign)):
+        return st
+    for n in ast.walk(st.value):
+        if isinstance(n, ast.Lambda):
+            return st
+        if isinstance(n, ast.IfExp):
+            a = _subst_node(st, n, n.body)
+            b = _subst_node(st, n, n.orelse)
+            x = ast.If(test=n.test, body=[a], orelse=[b])
+            ast.copy_location(x, st)
+            return x
+        if isinstance(n, ast.Call) and isinstance(n.func, ast.Attribute) and n.func.attr == "get" and len(n.args) == 2 and isinstance(n.func.value, (ast.Name, ast.Dict)) and isinstance(n.args[0], ast.Name):
+            table = _const(n.func.value)
+            if isinstance(n.func.value, ast.Dict):
+                try:
+                    table = ast.literal_eval(n.func.value)
+                except ValueError:
+                    table = None
+            if isinstance(table, dict) and table and all(isinstance(k_, str) and isinstance(v_, str) for k_, v_ in table.items()):
+                cur = _subst_node(st, n, n.args[1])
+                for k_, v_ in reversed(list(table.items())):
+                    test = ast.Compare(left=n.args[0], ops=[ast.Eq()], comparators=[ast.Constant(k_)])
+                    cur = ast.copy_location(ast.If(test=test, body=[_subst_node(st, n, ast.Constant(v_))], orelse=[cur]), st)
+                return cur
+    return st
+
+
 def _sym_exec(stmts, env, conds, out, mod, sentinel, skip, A) -> None:
     for i, st in enumerate(stmts):
         if st is skip:
             continue
+        st = _lower_v1_stmt(st)
         rec = _sym_store(st, env, mod, sentinel, A)
         if rec is not None:
             out.setdefault(frozenset(conds), []).append(rec)
@@ -2821,6 +2926,16 @@ def _sym_exec(stmts, env, conds, out, mod, sentinel, skip, A) -> None:
             env[st.target.id] = _sym_eval(st.target, env, mod) + _sym_eval(st.value, env, mod)
         elif isinstance(st, ast.If) and not st.orelse and len(st.body) == 1 and isinstance(st.body[0], ast.Continue) and any(isinstance(n_, ast.Compare) and isinstance(n_.ops[0], (ast.In, ast.NotIn)) for n_ in ast.walk(st.test)):
             env["\0guards"] = tuple(env.get("\0guards", ())) + (st.test,)  # a skip condition on what is already stored
+        elif isinstance(st, ast.If) and isinstance(st.test, ast.Compare) and len(st.test.ops) == 1 and isinstance(st.test.ops[0], (ast.In, ast.NotIn)) and isinstance(st.test.comparators[0], (ast.Tuple, ast.List, ast.Set)) and st.test.comparators[0].elts and all(_cstr(e_) is not None for e_ in st.test.comparators[0].elts):
+            # x in ("a", "b")  ->  if x == "a": ... elif x == "b": ... else: ...
+            yes, no = (st.body, st.orelse) if isinstance(st.test.ops[0], ast.In) else (st.orelse, st.body)
+            cur = list(no)
+            for e_ in reversed(st.test.comparators[0].elts):
+                cur = [ast.copy_location(ast.If(test=ast.Compare(left=st.test.left, ops=[ast.Eq()], comparators=[e_]), body=list(yes) or [ast.Pass()], orelse=cur), st)]
+            _sym_exec(cur + list(stmts[i + 1 :]), env, conds, out, mod, sentinel, skip, A)
+            return
+        elif isinstance(st, ast.Pass):
+            continue
         elif isinstance(st, ast.If):
             test, flip = st.test, False
             while isinstance(test, ast.UnaryOp) and isinstance(test.op, ast.Not):
@@ -2831,9 +2946,22 @@ def _sym_exec(stmts, env, conds, out, mod, sentinel, skip, A) -> None:
             if ec is None or not isinstance(ec[0], ast.Name):
                 raise Unsupported(f"v1 loop: test not understood: {short(st.test, 50)}")
             val = _sym_norm(_sym_eval(ec[0], env, mod))
-            if len(val) != 1 or val[0][0] != "v":
-                raise Unsupported(f"v1 loop: test on a derived value: {short(st.test, 50)}")
             rest = list(stmts[i + 1 :])
+            known = None
+            if all(k_ == "c" for k_, _ in val):  # the tested value is a constant on this path
+                known = ("".join(v_ for _, v_ in val) == ec[1])
+            elif len(val) == 1 and val[0][0] == "v":
+                for r_, c_, p_ in conds:  # decided by what this path already knows about the field
+                    if r_ == val[0][1]:
+                        if c_ == ec[1]:
+                            known = p_
+                        elif p_:
+                            known = False
+            else:
+                raise Unsupported(f"v1 loop: test on a derived value: {short(st.test, 50)}")
+            if known is not None:
+                _sym_exec(list(st.body if known != flip else st.orelse) + rest, env, conds, out, mod, sentinel, skip, A)
+                return
             _sym_exec(list(st.body) + rest, dict(env), conds + [(val[0][1], ec[1], not flip)], out, mod, sentinel, skip, A)
             _sym_exec(list(st.orelse) + rest, dict(env), conds + [(val[0][1], ec[1], flip)], out, mod, sentinel, skip, A)
             return
@@ -3058,10 +3186,34 @@ def r5_constants(corpus: Corpus, rep: Report, tier: str):
         if any(a == "[:n]" for a, _ in mchain) or [b for a, b in mchain if a == "split"] != [b for a, b in schain if a == "split"]:
             why = ": Sphinx splits off the first two fields only and keeps the rest of the line as the location; here the location is cut at its first blank (or the line fails to unpack) and whatever follows is dropped"
         rep.violation(rid, k, A.v1.module.site(mloop), f"v1 lines are taken apart with {mchain}, Sphinx {ver} uses {schain}{why}")
-    for conds in sorted(set(mtab) | set(stab), key=lambda c: sorted(map(str, c))):
+    def compatible(c1, c2) -> bool:
+        for r1, k1, p1 in c1:
+            for r2, k2, p2 in c2:
+                if r1 == r2 and ((k1 == k2 and p1 != p2) or (k1 != k2 and p1 and p2)):
+                    return False
+        return True
+
+    def under(recs, conds):
+        """records with the fields fixed by the path conditions substituted (ITEMTYPE == 'module' -> 'module')"""
+        fixed = {r: c for r, c, p in conds if p}
+        sub = lambda parts: None if parts is None else _sym_norm(tuple(("c", fixed[v]) if k_ == "v" and v in fixed else (k_, v) for k_, v in parts))
+        return None if recs is None else [(sub(t), sub(n), sub(l), sub(x), md) for t, n, l, x, md in recs]
+
+    pairs = {}
+    for cm in mtab:
+        for c2 in stab:
+            if compatible(cm, c2) and compatible(cm, cm) and compatible(c2, c2):
+                pairs[frozenset(cm | c2)] = (mtab[cm], stab[c2])
+    for cm in mtab:
+        if not any(compatible(cm, c2) for c2 in stab):
+            pairs[cm] = (mtab[cm], None)
+    for c2 in stab:
+        if not any(compatible(cm, c2) for cm in mtab):
+            pairs[c2] = (None, stab[c2])
+    for conds in sorted(pairs, key=lambda c: sorted(map(str, c))):
         cs = " and ".join(f"{r} {'==' if p else '!='} {c!r}" for r, c, p in sorted(conds)) or "always"
         k = f"{A.v1.fq}|v1 entry where {cs}"
-        m_, s_ = mtab.get(conds), stab.get(conds)
+        m_, s_ = under(pairs[conds][0], conds), under(pairs[conds][1], conds)
         show = lambda recs: "; ".join(f"type={_sym_show(t)} name={_sym_show(n)} loc={_sym_show(l)} text={_sym_show(x)} ({md})" for t, n, l, x, md in recs) if recs else "no store"
         if m_ == s_ and m_ is not None and len(m_) == 1:
             rep.ok(rid, k, A.v1.module.site(mloop), show(m_))
@@ -3360,6 +3512,33 @@ def mutants(corpus: Corpus):
             add2("c18-search-offset-advanced-after-read", "C18.R4", common + [(drop, f"{seg(drop)}\n{ind(drop)}self._scanned = 0"), (rbcall, f"{seg(rbcall)}\n{ind(rbcall)}self._scanned = len({B_})")], "bytes were appended after the search")
         else:
             out.append(("c18-search-offset-not-reset-after-cut", "readline no longer has the find / read / reset / drop statements"))
+    # class "decision on the bytes that happen to be buffered"
+    M_ = _reader(corpus)
+    battr = M_.B.split(".", 1)[1]
+    ctor = find_node(A.load, lambda n: isinstance(n, ast.Assign) and isinstance(n.value, ast.Call) and corpus.find_class(inv.resolve(dotted(n.value.func) or "")) is not None)
+    if ctor is not None and isinstance(ctor.targets[0], ast.Name):
+        rn, i_ = ctor.targets[0].id, " " * ctor.col_offset
+        add("c18-header-sniff-on-first-read", "C18.R4", ctor, f'{ast.get_source_segment(src, ctor)}\n{i_}{rn}.read_buffer()\n{i_}if not {rn}.{battr}.startswith(b"# Sphinx inventory version"):\n{i_}    raise ValueError("invalid inventory header")', "decision on the buffer content")
+    else:
+        out.append(("c18-header-sniff-on-first-read", "reader construction in load() not found"))
+    zl = find_node(v2, lambda n: isinstance(n, ast.If) and any(_cstr(x) == "zlib" for x in ast.walk(n.test) if isinstance(x, (ast.Constant, ast.Name))))
+    if zl is not None and v2.params:
+        i_ = " " * zl.col_offset
+        add("c18-zlib-magic-sniff-on-buffer", "C18.R4", zl, f'{ast.get_source_segment(src, zl)}\n{i_}if {v2.params[0]}.{battr}[:1] not in (b"", b"x"):\n{i_}    raise ValueError("inventory body is not zlib data")', "decision on the buffer content")
+    if rl is not None:
+        rbx = find_node(rl, lambda n: isinstance(n, ast.Expr) and isinstance(n.value, ast.Call) and isinstance(n.value.func, ast.Attribute) and _is_name(n.value.func.value, "self") and "append" in M_.summ.get(n.value.func.attr, set()) and n.value.func.attr != rl.name)
+        if rbx is not None:
+            i_ = " " * rbx.col_offset
+            add("c18-line-length-guard-on-buffer", "C18.R4", rbx, f'if len({M_.B}) > 4 * _BUFSIZE:\n{i_}    raise ValueError("line too long")\n{i_}{ast.get_source_segment(src, rbx)}', "decision on the buffer content")
+    # class "v1 branch taken on a derived instead of the raw field"
+    v1if = find_node(v1, lambda n: isinstance(n, ast.If) and _eq_const(n.test) is not None and _eq_const(n.test)[1] == "mod")
+    if v1if is not None and isinstance(_eq_const(v1if.test)[0], ast.Name) and len(v1if.body) == 2 and len(v1if.orelse) == 1:
+        tvn = _eq_const(v1if.test)[0].id
+        i_ = " " * v1if.col_offset
+        add("c18-v1-anchor-from-translated-type", "C18.R5", v1if, f'{tvn} = {{"mod": "module"}}.get({tvn}, {tvn})\n{i_}if {tvn} == "module":\n{i_}    {ast.get_source_segment(src, v1if.body[1])}\n{i_}else:\n{i_}    {ast.get_source_segment(src, v1if.orelse[0])}', "ITEMTYPE == 'module'")
+        add("c18-v1-module-spelling-also-renamed", "C18.R5", v1if.test, f'{tvn} in ("mod", "module")', "ITEMTYPE == 'module'")
+    else:
+        out.append(("c18-v1-anchor-from-translated-type", "v1 `if objtype == \"mod\"` with two/one statements not found"))
     # class "v1 location cut at its first blank"
     try:
         un1 = _v1_unpack(v1)
